@@ -42,8 +42,8 @@ for d in sorted(glob.glob(os.path.join(HERE, "seeded", "C*-*"))):
         "needs_to_manifest": am.get("needs_to_manifest"),
         "source": ("independent sub-agent given the property text and a scratch worktree, and pointed at the source files the property's anchors name (round 3)"
                    if re.match(r"C\d+c-|C20-", sid) else
-                   "independent sub-agent given only the property text and a scratch worktree, asked for small shape-preserving edits (rounds 5-9)"
-                   if re.match(r"C\d+[efghij]-", sid) else "independent sub-agent given only the property text and a scratch worktree"),
+                   "independent sub-agent given only the property text and a scratch worktree, asked for small shape-preserving edits (rounds 5-10)"
+                   if re.match(r"C\d+[efghijk]-", sid) else "independent sub-agent given only the property text and a scratch worktree"),
         "confirmed_by_me": cf.get("confirmed"),
         "what_i_ran": {
             "scratch_worktree": "/tmp/wt-confirm (git worktree of /repo HEAD, removed afterwards)",
